@@ -406,6 +406,13 @@ impl Search {
         }
 
         let moves = self.board.get_all_moves();
+        if moves.is_empty() {
+            // Not even a pseudo-legal move (every unit is blocked): checkmate or stalemate
+            if self.board.is_in_check(self.board.current_turn) {
+                return Score::MIN + i16::from(self.info.depth);
+            }
+            return 0;
+        }
         let mut total_legal_moves = 0;
 
         let mut best_ply = moves[0];
